@@ -1,8 +1,310 @@
+/-
+Driver op `richtext` (property C08): a JSON tree of nested constructor calls + a list of
+operations applied on top of one another.  For the initial object and after every operation
+the reply gives, under `out`, what the *model* of the code computes (class, normal-form tree,
+rendering with the tracing backend, `str`, `len`, op-specific result) and, under `spec`, the
+same observables computed by plain list operations on the string of (atom, markup) pairs,
+starting from the denotation of the raw tree (no normalisation, no parts).
+
+tree  ::= "chars" | {"y": name} | {"k": "text"|"tag"|"href"|"prot", "n": name, "u": url, "e": bool, "p": [tree…]}
+-/
 import PybtexModel.Drv.Json
+import PybtexModel.Spec.RichText
+import PybtexModel.Gen.RichText
 open Lean
 namespace Pybtex.Drv.C08
+open Pybtex.RT
+
+/-- parse a raw tree (the recursion is bounded by `fuel` = maximal nesting accepted by the wire
+format; this is I/O glue, not part of the model). -/
+def parseTree : Nat → Json → Except String RT
+  | 0, _ => throw "tree nested too deeply for the driver"
+  | fuel + 1, j =>
+    match j with
+    | .str s => pure (.str s.toList)
+    | _ => do
+      match j.getObjVal? "y" with
+      | .ok y => pure (.sym (← jsonToStr y))
+      | .error _ =>
+        let k ← (← j.getObjVal? "k").getStr?
+        let ps ← (← getArr j "p").mapM (parseTree fuel)
+        match k with
+        | "text" => pure (.node .text ps)
+        | "tag" => pure (.node (.tag (← getStr j "n")) ps)
+        | "href" => pure (.node (.href (← getStr j "u") (← getBool j "e")) ps)
+        | "prot" => pure (.node .prot ps)
+        | _ => throw s!"unknown kind {k}"
+
+def tree (j : Json) : Except String RT := parseTree 64 j
+
+def kindFields : Kind → List (String × Json)
+  | .text => [("k", Json.str "text")]
+  | .tag n => [("k", Json.str "tag"), ("n", strToJson n)]
+  | .href u e => [("k", Json.str "href"), ("u", strToJson u), ("e", Json.bool e)]
+  | .prot => [("k", Json.str "prot")]
+
+mutual
+def treeJ : RT → Json
+  | .str s => strToJson s
+  | .sym n => obj [("y", strToJson n)]
+  | .node k ps => obj (kindFields k ++ [("p", arr (treeJL ps))])
+def treeJL : List RT → List Json
+  | [] => []
+  | p :: ps => treeJ p :: treeJL ps
+end
+
+def topJ : Top → Json
+  | .string => arr [Json.str "String"]
+  | .symbol => arr [Json.str "Symbol"]
+  | .multi .text => arr [Json.str "Text"]
+  | .multi (.tag n) => arr [Json.str "Tag", strToJson n]
+  | .multi (.href u e) => arr [Json.str "HRef", strToJson u, Json.bool e]
+  | .multi .prot => arr [Json.str "Protected"]
+
+def markupJ : Markup → Json
+  | .tag n => arr [Json.str "tag", strToJson n]
+  | .href u e => arr [Json.str "href", strToJson u, Json.bool e]
+  | .prot => arr [Json.str "prot"]
+
+def atomJ : Atom → Json
+  | .ch c => strToJson [c]
+  | .sym n => obj [("y", strToJson n)]
+
+/-- Wire format of a string of pairs: maximal runs of characters inside the same markup are
+sent as one `[stack, "chars"]` entry, a symbol as `[stack, {"y": name}]` (a bijective
+re-encoding of the list of pairs; the harness applies the same grouping to what the real
+tracing backend returns). `cur` = pending run (stack, reversed characters). -/
+def runsGo : Flat → Option (List Markup × Str) → List Json
+  | [], none => []
+  | [], some (st, cs) => [arr [arr (st.map markupJ), strToJson cs.reverse]]
+  | (.ch c, st) :: r, none => runsGo r (some (st, [c]))
+  | (.ch c, st) :: r, some (st', cs) =>
+    if st = st' then runsGo r (some (st', c :: cs))
+    else arr [arr (st'.map markupJ), strToJson cs.reverse] :: runsGo r (some (st, [c]))
+  | (.sym n, st) :: r, none => arr [arr (st.map markupJ), atomJ (.sym n)] :: runsGo r none
+  | (.sym n, st) :: r, some (st', cs) =>
+    arr [arr (st'.map markupJ), strToJson cs.reverse] :: arr [arr (st.map markupJ), atomJ (.sym n)] :: runsGo r none
+
+def flatJ (s : Flat) : Json := arr (runsGo s none)
+
+def optFlatJ : Option Flat → Json
+  | none => Json.str "KeyError"
+  | some s => flatJ s
+
+/-- what is observed of a model object -/
+def snapModel (t : RT) (res : Json) : Json :=
+  obj [("cls", topJ (top t)), ("tree", treeJ t), ("sem", optFlatJ (render traceBackend t)),
+       ("str", strToJson (toStr t)), ("len", nat (len t)), ("res", res)]
+
+/-- the same observables of an abstract value -/
+def snapSpec (a : Abs) (res : Json) : Json :=
+  obj [("cls", topJ a.top), ("sem", flatJ a.atoms), ("str", strToJson (Flat.toStr a.atoms)),
+       ("len", nat a.atoms.length), ("res", res)]
+
+def partModel (t : RT) : Json :=
+  obj [("cls", topJ (top t)), ("tree", treeJ t), ("sem", optFlatJ (render traceBackend t))]
+def partSpec (a : Abs) : Json := obj [("cls", topJ a.top), ("sem", flatJ a.atoms)]
+
+def optInt (j : Json) (k : String) : Except String (Option Int) := do
+  match j.getObjVal? k with
+  | .error _ => pure none
+  | .ok .null => pure none
+  | .ok v => pure (some (← v.getInt?))
+
+def optBool (j : Json) (k : String) : Except String (Option Bool) := do
+  match j.getObjVal? k with
+  | .error _ => pure none
+  | .ok .null => pure none
+  | .ok v => pure (some (← v.getBool?))
+
+def optNat (j : Json) (k : String) : Except String (Option Nat) := do
+  match j.getObjVal? k with
+  | .error _ => pure none
+  | .ok .null => pure none
+  | .ok v => pure (some (← v.getNat?))
+
+def parseSep (j : Json) : Except String Sep := do
+  match j.getObjVal? "sep" with
+  | .error _ => pure .ws
+  | .ok .null => pure .ws
+  | .ok v =>
+    match (← jsonToStr v) with
+    | [] => throw "empty separator is outside the modelled domain (str.split raises ValueError)"
+    | c :: cs => pure (.lit c cs)
+
+/-- is the abstract `split` specified for this separator / `keep_empty_parts`? -/
+def splitSpecified (sep : Sep) (keep : Bool) : Bool :=
+  match sep with
+  | .ws => !keep
+  | .lit _ [] => true
+  | .lit _ _ => false
+
+def terms : List Str := Pybtex.Gen.terminators
+
+def errJ : Err → Json
+  | .indexError => Json.str "IndexError"
+
+/-- one step on both sides: (new model object, model res, new abstract value, spec res) -/
+def stepBoth (t : RT) (a : Abs) (j : Json) : Except String (RT × Json × Abs × Json) := do
+  let o ← (← j.getObjVal? "o").getStr?
+  let simple (op : Op) : Except String (RT × Json × Abs × Json) :=
+    let m := match RT.step terms t op with
+      | .ok t' => (t', Json.null)
+      | .error e => (t, errJ e)
+    let s := match Abs.step terms a op.abs with
+      | .ok a' => (a', Json.null)
+      | .error e => (a, errJ e)
+    pure (m.1, m.2, s.1, s.2)
+  match o with
+  | "add" => let x ← tree (← j.getObjVal? "x"); let r ← simple (.add (build x)); pure (r.1, r.2.1, Abs.add a (abs x), r.2.2.2)
+  | "radd" => let x ← tree (← j.getObjVal? "x"); let r ← simple (.radd (build x)); pure (r.1, r.2.1, Abs.add (abs x) a, r.2.2.2)
+  | "append" => let x ← tree (← j.getObjVal? "x"); let r ← simple (.append (build x)); pure (r.1, r.2.1, Abs.append a (abs x), r.2.2.2)
+  | "join" =>
+    let xs ← (← getArr j "xs").mapM tree
+    let r ← simple (.joinWith (xs.map build))
+    pure (r.1, r.2.1, Abs.join a (xs.map abs), r.2.2.2)
+  | "slice" => simple (.slice (← optInt j "i") (← optInt j "j"))
+  | "index" => simple (.index (← getInt j "i"))
+  | "upper" => simple .upper
+  | "lower" => simple .lower
+  | "capfirst" => simple .capfirst
+  | "capitalize" => simple .capitalize
+  | "add_period" => simple .addPeriod
+  | "split" =>
+    let sep ← parseSep j
+    let keep ← optBool j "keep"
+    let pick ← optNat j "pick"
+    let kd := keepDefault sep keep
+    let parts := split sep t keep
+    let rejoinM : Json := match sep with
+      | .ws => Json.null
+      | .lit c cs => optFlatJ (render traceBackend (join (.str (c :: cs)) parts))
+    let resM := obj [("parts", arr (parts.map partModel)), ("rejoin", rejoinM)]
+    let specified := splitSpecified sep kd
+    let partsS := Abs.split sep kd a
+    let rejoinS : Json := match sep with
+      | .ws => Json.null
+      | .lit _ _ => if kd then flatJ a.atoms else Json.null
+    let resS := if specified then obj [("parts", arr (partsS.map partSpec)), ("rejoin", rejoinS)]
+                else obj [("rejoin", rejoinS)]
+    match pick with
+    | none => pure (t, resM, a, resS)
+    | some k =>
+      if !specified then throw "split with pick needs a specified separator" else
+      let t' := match parts[k % parts.length]? with
+        | some p => p
+        | none => t
+      let a' := match partsS[k % partsS.length]? with
+        | some p => p
+        | none => a
+      pure (t', resM, a', resS)
+  | "startswith" =>
+    let ps ← getStrList j "p"
+    pure (t, Json.bool (startsWith ps t), a, Json.bool (Abs.startsWith ps a))
+  | "endswith" =>
+    let ps ← getStrList j "p"
+    pure (t, Json.bool (endsWith ps t), a, Json.bool (Abs.endsWith ps a))
+  | "contains" =>
+    let s ← getStr j "s"
+    pure (t, Json.bool (contains s t), a, Json.bool (Abs.contains s a))
+  | "isalpha" => pure (t, Json.bool (isAlphaT t), a, Json.bool (Abs.isAlpha a))
+  | "eq" =>
+    let x ← tree (← j.getObjVal? "x")
+    let u := build x
+    let e : Bool := decide (a = abs x)
+    pure (t, arr [Json.bool (eq t u), Json.bool (eq u t)], a, arr [Json.bool e, Json.bool e])
+  | _ => throw s!"unknown richtext op {o}"
+
+/-- first-occurrence de-duplication of a list of results: (distinct values, index of each result).
+Results are compared through their compact rendering. -/
+def dedupGo : List Json → List (String × Json) → List Nat → List Json × List Nat
+  | [], seen, idx => (seen.reverse.map (·.2), idx.reverse)
+  | j :: js, seen, idx =>
+    let key := j.compress
+    match seen.findIdx? (·.1 == key) with
+    | some k => dedupGo js seen ((seen.length - 1 - k) :: idx)
+    | none => dedupGo js ((key, j) :: seen) (seen.length :: idx)
+
+def tableJ (results : List Json) : Json :=
+  let r := dedupGo results [] []
+  obj [("vals", arr r.1), ("idx", arr (r.2.map nat))]
+
+def intRange (lo hi : Int) : List Int := (List.range (hi - lo + 1).toNat).map fun (k : Nat) => lo + (k : Int)
+
+/-- the bounds tried by `slicetab`: `None` first, then `lo … hi` -/
+def boundList (lo hi : Int) : List (Option Int) := none :: (intRange lo hi).map some
+
+def valModel (t : RT) : Json :=
+  obj [("cls", topJ (top t)), ("tree", treeJ t), ("sem", optFlatJ (render traceBackend t)),
+       ("str", strToJson (toStr t)), ("len", nat (len t))]
+def valSpec (a : Abs) : Json :=
+  obj [("cls", topJ a.top), ("sem", flatJ a.atoms), ("str", strToJson (Flat.toStr a.atoms)),
+       ("len", nat a.atoms.length)]
+
+/-- queries that produce whole tables: every slice / every index in a range -/
+def tableOps (t : RT) (a : Abs) (j : Json) (o : String) : Except String (Option (Json × Json)) := do
+  match o with
+  | "slicetab" =>
+    let lo ← getInt j "lo"; let hi ← getInt j "hi"
+    let bs := boundList lo hi
+    let pairs := bs.flatMap fun i => bs.map fun k => (i, k)
+    pure (some (tableJ (pairs.map fun p => valModel (getSlice t p.1 p.2)),
+                tableJ (pairs.map fun p => valSpec (Abs.slice a p.1 p.2))))
+  | "indextab" =>
+    let lo ← getInt j "lo"; let hi ← getInt j "hi"
+    let is := intRange lo hi
+    pure (some (tableJ (is.map fun i => match getIndex t i with
+                  | .ok r => valModel r
+                  | .error e => errJ e),
+                tableJ (is.map fun i => match Abs.index a i with
+                  | .ok r => valSpec r
+                  | .error e => errJ e)))
+  | _ => pure none
+
+def stepAny (t : RT) (a : Abs) (j : Json) : Except String (RT × Json × Abs × Json) := do
+  let o ← (← j.getObjVal? "o").getStr?
+  match (← tableOps t a j o) with
+  | some (m, s) => pure (t, m, a, s)
+  | none => stepBoth t a j
+
+/-- operations that leave the current object as it is report only their result -/
+def isQuery (j : Json) : Bool :=
+  match j.getObjVal? "o" with
+  | .ok (.str o) =>
+    if o == "split" then (match j.getObjVal? "pick" with | .ok .null => true | .error _ => true | _ => false)
+    else ["eq", "startswith", "endswith", "contains", "isalpha", "slicetab", "indextab"].contains o
+  | _ => false
+
+def snapM (j : Json) (t : RT) (res : Json) : Json :=
+  if isQuery j then obj [("res", res)] else snapModel t res
+def snapS (j : Json) (a : Abs) (res : Json) : Json :=
+  if isQuery j then obj [("res", res)] else snapSpec a res
+
+def runBoth (t : RT) (a : Abs) : List Json → Except String (List Json × List Json)
+  | [] => pure ([], [])
+  | j :: js => do
+    let r ← stepAny t a j
+    let rest ← runBoth r.1 r.2.2.1 js
+    pure (snapM j r.1 r.2.1 :: rest.1, snapS j r.2.2.1 r.2.2.2 :: rest.2)
+
+/-- fan mode: every operation is applied to the initial object -/
+def runFan (t : RT) (a : Abs) : List Json → Except String (List Json × List Json)
+  | [] => pure ([], [])
+  | j :: js => do
+    let r ← stepAny t a j
+    let rest ← runFan t a js
+    pure (snapM j r.1 r.2.1 :: rest.1, snapS j r.2.2.1 r.2.2.2 :: rest.2)
+
+def richtext (j : Json) : Except String Json := do
+  let raw ← tree (← j.getObjVal? "tree")
+  let ops ← getArr j "ops"
+  let t := build raw
+  let a := abs raw
+  let fan ← optBool j "fan"
+  let r ← if fan == some true then runFan t a ops else runBoth t a ops
+  pure (obj [("out", arr (snapModel t Json.null :: r.1)), ("spec", arr (snapSpec a Json.null :: r.2))])
 
 /-- driver ops of this property: (op name, handler) -/
-def handlers : List (String × (Json → Except String Json)) := []
+def handlers : List (String × (Json → Except String Json)) := [("richtext", richtext)]
 
 end Pybtex.Drv.C08
